@@ -907,7 +907,11 @@ impl ProtocolState {
                     }
                     MqttPacket::Publish(publish) => {
                         if publish.duplicate {
-                            self.resubmit_operation_queue.push_front(id);
+                            // if the publish itself was already written on this connection (we were sending its pubrel),
+                            // the pending publish table processing will add it to the resubmit queue; don't add it twice
+                            if !self.pending_publish_operations.values().any(|pending_id| *pending_id == id) {
+                                self.resubmit_operation_queue.push_front(id);
+                            }
                         } else if publish.qos == QualityOfService::ExactlyOnce && operation.qos2_pubrel.is_some() {
                             self.high_priority_operation_queue.push_front(id);
                         } else if does_packet_pass_offline_queue_policy(&operation.packet, &self.config.offline_queue_policy) {
